@@ -49,7 +49,7 @@ def pool():
     G = [list(range(5000)), [{'i': i} for i in range(4100)], [], [0], ['a\u2028b', 'c\x85d\u2029e', '\x0b\x0c\x1c'], [{'a': 1}, [], 'x', None, 1.5], [{'k': i} for i in range(12)], ['a\nb', ' '], [[[]]], [0, False, '', {}]]
     L = [[], [np.array(1)], [np.arange(i) for i in range(12)], [np.array([[1.5]]), np.array(['s'])]]
     F = [{'out.json': '{}'}, {'a.txt': '', 'sub/b.txt': 'x\ny', 'sub/deep/c.bin': '\x00\x01'}, {}]
-    return {'json': J, 'npy': A, 'pd': D, 'gen': G, 'lazy': G, 'listnpy': L, 'dir': F}
+    return {'json': J, 'npy': A, 'pd': D, 'gen': G, 'lazy': G, 'listnpy': L, 'dir': F, 'cont': F}
 
 
 def bounds(tier):
@@ -117,7 +117,7 @@ def read_dir(p):
 
 
 def visible(kind, v):
-    if kind == 'dir':
+    if kind in ('dir', 'cont'):
         return read_dir(v)
     if kind == 'lazy':
         return list(v())
@@ -166,7 +166,7 @@ def pool_harness(kind, lo):
             t = world.task(k, 'store')
         got1 = visible(kind, t.value)
         exp_vis = expected if kind not in ('gen', 'lazy') else list(expected)
-        eq = dict_same if kind == 'dir' else same
+        eq = dict_same if kind in ('dir', 'cont') else same
         ctx.check_concrete(eq(got1, exp_vis), 'loaded=returned', dict(info, stage='computing chain', got=repr(got1)[:300]))
         before = result_snapshot(world)
         world.drop_chains()
